@@ -25,11 +25,15 @@ TraceInit == Init /\ l = 1 /\ skip = FALSE /\ TLCSet(7, 0)
 
 AuditNames(rec) == {rec.audit.st[j].n : j \in 1..Len(rec.audit.st)}
 
-Suffix(rec, sameR) ==
+(* same rule as the harness: named classes are reported as they are, a bare command name gets *)
+(* "/audit" when only the audit differs                                                       *)
+NamedClass(sig) == \E p \in {"uid-star/", "partial/", "copyuid/", "examine/", "rename/", "lsub/"} :
+                      Len(sig) >= Len(p) /\ SubSeq(sig, 1, Len(p)) = p
+Suffix(rec, sameR, sig) ==
   IF rec.r.st = "PANIC" THEN "-panic"
   ELSE IF rec.r.st = "CLOSED" THEN "-closed"
   ELSE IF rec.r.st = "STALL" THEN "-stall"
-  ELSE IF sameR THEN "/audit" ELSE ""
+  ELSE IF sameR /\ ~NamedClass(sig) THEN "/audit" ELSE ""
 
 Adopt(S, cmd, r, a) ==
   /\ mb' = S.mb /\ uvc' = S.uvc /\ uvh' = S.uvh /\ cn' = S.cn
@@ -51,7 +55,7 @@ TraceNext ==
               a == Audit(e.S, AuditNames(rec))
           IN IF e.r = rec.r /\ a = rec.audit
              THEN Adopt(e.S, rec.cmd, e.r, a) /\ skip' = FALSE
-             ELSE /\ PrintT(<<"BAD", ToJson([line |-> l, sig |-> Sig(St, rec.cmd) \o Suffix(rec, e.r = rec.r),
+             ELSE /\ PrintT(<<"BAD", ToJson([line |-> l, sig |-> Sig(St, rec.cmd) \o Suffix(rec, e.r = rec.r, Sig(St, rec.cmd)),
                                             r |-> e.r, audit |-> a])>>)
                   /\ IF TLCGet(7) = 0 THEN TLCSet(7, l) ELSE TRUE
                   /\ skip' = TRUE /\ UNCHANGED vars
